@@ -35,6 +35,7 @@ var parseCorpus = []string{
 	"a\n-= 1", "a\n+= 1", "a\n= 1", "a\n- 1", "a\n== b", "a\n&& b", "a\n* b", "a\n. b", "a\n, b", "a\n? b",
 	"", ";", "a", "a;b", "a b", "let", "let 1; x", "let x = ", "return\nx", "a\n++b", "foo()\n++\nbar()", "a - -b", "x = a + ++b",
 	"if (a) b; else c", "if (a) b\nelse c", "if a", "while (", "for (;;) {}", "for (let i = 0; i < 3; i++) { x }", "for (x;;", "function", "function f", "function f(", "function f(a,", "function f(a,b) {", "function f(1, 2) {}",
+	"function f(a, 1) {}", "function (+) {}", "function f(a b) {}", "function f(,) {}", "x = function(1){}", "function f(a,) {}", "function f({}", "function f(a, {}", "function f(a, b) {}", "x = function(a, if) {}", "function f(\"a\") {}", "function f(a,\n",
 	"{", "}", "{ a", "{{{", "(", ")", "(a", "[", "[1,", "[1,2", "{a:1}", "({a:1})", "({a:1,})", "({a})", "({})", "x = {}", "x = {a:1, 'b': 2}", "a.b.c", "a.1", "a.(b)", "a[1][2]", "a[", "f(1,2)(3)", "f(", "f(1,",
 	"1 + 2 * 3", "a = b = c", "a += b -= c", "y = 1 + x\n= 5", "!a", "- - a", "a++ + b", "a\n(b)", "a\n[b]", "08", "1e400", "9223372036854775808", "0x", "1e", "1.5.2", "`a", "\"a", "'a", "a &", "a | b", "@", "#a",
 	"function(){}", "(function(){})()", "x = function g(a) { return a }", "let f = function() { if (a) { return 1 } else { return 2 } }", "return", "return;", "return 1", "let a = b\n(c)()", "a\n.b", "a.\nb", "a\n+ b", "a +\nb",
